@@ -143,7 +143,7 @@ def gen(tier: str, seed: int) -> list[Case]:
     from ..core import gated_features
 
     gated = gated_features()
-    n_models = 2 if tier == "quick" else 20
+    n_models = 2 if tier == "quick" else 80
     cases = []
     for i in range(n_models):
         funcs = build_model(rng, i, 90)
